@@ -14,7 +14,8 @@ Stage "pump" (one evaluation = one fresh environment):
           parsing fault; subscriber that *takes* the flow (what MessageHandler.wait_for does) and releases it one pump later
   addon behaviours  ignore | take | take+resume inside the hook | take, resume after 1 / 2 further pumps | resume twice inside
           the hook | take, resume later, resume again | inject a response | rewrite the URL | clear can_stream | return True |
-          resume then preempt later | preempt before any resume
+          resume then preempt later | preempt before any resume | take, then the flow's region is dropped from the session /
+          its session is closed (and garbage-collected), then resume (all flows; x single faults on the plain/valid flows)
   enumerated: all flows x all single faults x all behaviours of addon1; then all pairs of faults, and all pairs of behaviours
   (addon1 x addon2) -- on every flow in the thorough tier, on the plain/valid flows in the quick tier; thorough adds
   behaviour pair x single fault on the plain/valid flows.
@@ -43,6 +44,7 @@ the exception (pump_proxy_event may raise -- ``run()`` logs it).
 from __future__ import annotations
 
 import contextlib
+import gc
 import io
 import itertools
 import pickle
@@ -60,7 +62,7 @@ from hippolyzer.lib.proxy.http_flow import HippoHTTPFlow
 from hippolyzer.lib.proxy.http_proxy import IPCInterceptionAddon
 from hippolyzer.lib.proxy.message_logger import BaseMessageLogger
 
-from hmc.core import Part, Run, pmap
+from hmc.core import HarnessError, Part, Run, pmap
 from hmc.httpharness import (Env, MemFlowContext, REGION_ADDRS, cap_url, reset_library_globals, restore_uuid4, seed_url,
                              session_uuid)
 from hmc.vloop import VLoop, install
@@ -72,6 +74,8 @@ FLAGS = ("plain", "injected", "browser")
 BODIES = ("empty", "valid", "malformed")
 BEHAVIOURS = ("ignore", "take", "take_resume", "take_later1", "take_later2", "resume_twice", "take_later_twice", "inject",
               "rewrite", "nostream", "handled", "resume_preempt", "preempt_early")
+#: take(), then the owning region is dropped from the session / the owning session is closed (and collected), then resume()
+OWNER_LOSS = ("take_drop_region", "take_close_session")
 FAULTS = ("a1_raise_sw", "a1_raise_prop", "a2_raise_sw", "a2_raise_prop", "sess_sub", "reg_sub", "logger", "asset_repo",
           "resolve", "sess_sub_take", "reg_sub_take")
 ASSET_URL = "http://assets.test/mesh"
@@ -100,7 +104,9 @@ class ScriptedAddon:
         self.released = False
         self.called = 0
         self.log: List[str] = []
+        self.observe = False        # two-phase stage only: keeps (strong) references to what the hooks saw
         self.seen_caps: Dict[Tuple[str, str], Any] = {}
+        self.seen_plain: Optional[Tuple[Any, Any, Any]] = None     # (cap name, type name, base url) at hook time, no references
 
     def arm(self, fid: str, event: str, beh: str, raise_after: bool):
         self.target, self.beh, self.raise_after = (fid, event), beh, raise_after
@@ -134,15 +140,17 @@ class ScriptedAddon:
 
     def _hook(self, event: str, flow):
         cd = flow.cap_data
-        self.seen_caps[(flow.id, event)] = (cd.cap_name, cd.type, cd.base_url, cd.session and cd.session(),
-                                            cd.region and cd.region()) if cd is not None else None
+        if self.observe:
+            self.seen_caps[(flow.id, event)] = (cd.cap_name, cd.type, cd.base_url, cd.session and cd.session(),
+                                                cd.region and cd.region()) if cd is not None else None
         if self.target != (flow.id, event):
             return None
         self.called += 1
+        self.seen_plain = (cd.cap_name, cd.type.name, cd.base_url) if cd is not None else None
         ret = None
         b = self.beh
         try:
-            if b in ("take", "take_later1", "take_later2", "take_later_twice"):
+            if b in ("take", "take_later1", "take_later2", "take_later_twice") + OWNER_LOSS:
                 self._take(flow)
             elif b == "take_resume":
                 self._take(flow)
@@ -192,6 +200,8 @@ class ScriptedAddon:
             self._resume(self.held, label)
         except AssertionError:
             pass
+        except Exception as e:  # noqa: resume() itself failed -- the addon did release the flow
+            self.log.append(f"resume-raised:{type(e).__name__}")
 
     def preempt(self):
         try:
@@ -384,6 +394,30 @@ def _install_faults(w: World, fid: str, event: str, faults: Tuple[str, ...], si:
                 env.sm.resolve_cap = failing_resolve
 
 
+def _lose_owner(w: World, a: ScriptedAddon, beh: str, si: int, ri: int) -> str:
+    """Drop the region / close the session the taken flow is attributed to and collect it. Returns what the flow referenced."""
+    env = w.env
+    cd = a.held.cap_data
+    had = "+".join(n for n, ref in (("session", cd.session), ("region", cd.region)) if ref is not None and ref() is not None) or "no refs"
+    if beh == "take_drop_region":
+        sess = env.sessions[si]
+        region = sess.regions[ri]
+        region.mark_dead()
+        sess.regions.remove(region)
+        del region, sess
+    else:
+        sess = env.sessions.pop(si)
+        env.sm.close_session(sess)
+        del sess
+    del cd
+    gc.collect()
+    cd = a.held.cap_data
+    target = cd.region if beh == "take_drop_region" else cd.session
+    if target is not None and target() is not None:
+        raise HarnessError(f"{beh}: the dropped object is still alive, the case would be vacuous")
+    return had
+
+
 def evaluate_pump_case(case) -> Tuple[List[Dict[str, Any]], Any, bool]:
     """One evaluation. case = (event, kind, flag, body, status, faults tuple, beh1, beh2). Returns (violations, outcome, nontrivial)."""
     event, kind, flag, body, status, faults, beh1, beh2 = case
@@ -492,6 +526,17 @@ def evaluate_pump_case(case) -> Tuple[List[Dict[str, Any]], Any, bool]:
                     was = owned()
                     a.release()
                     account(f"release by {a.name} after {k} pump(s)", 1 if (a.released and was) else 0)
+                elif beh in OWNER_LOSS and k == 1 and a.took and not a.released:
+                    had = _lose_owner(w, a, beh, si, ri)
+                    was = owned()
+                    a.release()
+                    items = account(f"release by {a.name} after {beh[5:]} (flow had {had})", 1 if was else 0)
+                    mine = [i for i in items if i[0] == "callback" and i[1] == fid]
+                    if len(mine) == 1 and a.seen_plain is not None:
+                        ser = HTTPFlow.from_state(pickle.loads(pickle.dumps(mine[0][2]))).metadata.get("cap_data_ser")
+                        got = (ser.cap_name, ser.type, ser.base_url) if ser is not None else None
+                        if got != a.seen_plain:
+                            bad("state-after-owner-loss", f"hook saw cap {a.seen_plain!r}, callback state carries {got!r}")
                 elif beh == "take_later_twice" and k == 2 and a.released:
                     a.release("resumed-again")
                     account(f"second release by {a.name}", 0)
@@ -635,6 +680,7 @@ def evaluate_twophase_case(case) -> Tuple[List[Dict[str, Any]], Any, bool]:
     viol: List[Dict[str, Any]] = []
     try:
         url, method, headers, content = w.request_parts(kind, si, ri, flag, "valid")
+        w.a1.observe = True
         flow = env.new_flow(url, method, content, headers, fid="tp-flow")
         env.mitm_request(flow)
         env.pump()
@@ -805,6 +851,13 @@ def cases_for(tier: str):
             for b in BEHAVIOURS:
                 cases.append(("pump",) + fl + (fa, b, "ignore"))
     wide = flows if tier == "thorough" else core
+    # stage 1b: the owner of a taken flow's cap data disappears before the release
+    for b in OWNER_LOSS:
+        for fl in flows:
+            cases.append(("pump",) + fl + ((), b, "ignore"))
+        for fl in core:
+            for fa in single[1:]:
+                cases.append(("pump",) + fl + (fa, b, "ignore"))
     # stage 2a: pairs of faults x {ignore, deferred release}
     for fl in wide:
         for fa in pairs:
